@@ -571,6 +571,8 @@ type SynAckSpec struct {
 	// Greeting: a data segment of the accepted connection (PSH|ACK, the server's banner) is on the wire at DelayNs, the
 	// SYN-ACK (if Enabled) 2 ms behind it: what a capture handle without a working SYN-ACK filter sees first
 	Greeting bool `json:"greeting,omitempty"`
+	// ECN: the SYN-ACK is an ECN-setup SYN-ACK (SYN|ACK|ECE, RFC 3168): still the handshake's SYN-ACK
+	ECN bool `json:"ecn,omitempty"`
 }
 
 type Listener struct {
@@ -684,7 +686,11 @@ func (l *Listener) poll(n *Net) {
 				}
 				opts = append(opts, ts...)
 			}
-			t := refcodec.TCP(srv.Addr(), cli.Addr(), srv.Port(), cli.Port(), isn, ackNum, refcodec.SYN|refcodec.ACK, 65535, opts, nil)
+			flags := uint8(refcodec.SYN | refcodec.ACK)
+			if l.Spec.ECN {
+				flags |= 0x40 // ECE
+			}
+			t := refcodec.TCP(srv.Addr(), cli.Addr(), srv.Port(), cli.Port(), isn, ackNum, flags, 65535, opts, nil)
 			return refcodec.Wrap(srv.Addr(), cli.Addr(), refcodec.ProtoTCP, 64, 0, t)
 		}
 		if l.Spec.WrongFirst {
